@@ -55,7 +55,7 @@ fn sym_sweep(policy: usize, mode: usize, kind: usize, r: &mut Rng) -> Case8 {
         }
     }
     let mut c = mk_case(policy, mode, chunks, &format!("sym-{}-{}-{}", pol_name(policy), mode_name(mode), ["flips", "trunc-ext", "trunc-nosize"][kind]));
-    c.has_keys = true;
+    c.has_keys = true; c.reset_policy = true;
     Case8 { c, orig }
 }
 /// a receiver whose keys come from other nonces than the sender's: every chunk of the peer is foreign
@@ -64,7 +64,7 @@ fn sym_foreign(policy: usize, mode: usize, r: &mut Rng) -> Case8 {
     for _ in 0..3 { let body = rb(r, 30, 0); chunks.push(sym_original(policy, mode, b"MSG", &body, 1 + r.below(1000) as u32)); }
     let orig = vec![false; chunks.len()];
     let mut c = mk_case(policy, mode, chunks, &format!("sym-{}-{}-foreign-keys", pol_name(policy), mode_name(mode)));
-    c.has_keys = true; c.peer_nonce = 12 + r.below(200) as u8;
+    c.has_keys = true; c.reset_policy = true; c.peer_nonce = 12 + r.below(200) as u8;
     Case8 { c, orig }
 }
 
@@ -121,7 +121,7 @@ fn opn_sweep(policy: usize, kind: usize, sid: usize, rid: usize, r: &mut Rng) ->
         }
     }
     let mut c = mk_case(policy, 2, chunks, &format!("opn-{}-{}", pol_name(policy), ["flips", "trunc-ext", "foreign"][kind]));
-    c.rid = rid; c.sid = sid;
+    c.rid = rid; c.sid = sid; c.reset_policy = true;
     Case8 { c, orig }
 }
 
@@ -157,6 +157,7 @@ impl Property for P {
     }
     fn exec(c: &Case8) -> Out {
         let (term, out) = exec_case(&c.c);
+        debug_assert!(c.c.reset_policy);
         let term = format!("(mk_case8 {} {})", term, coq_list(&c.orig, |b| coq_bool(*b).to_string()));
         Out { tag: c.c.tag.clone(), term, out }
     }
